@@ -85,6 +85,8 @@ def _install_seams():
     post_tx_queue.threading = _Shim()
     rec_mod.install_hooks()
     _wrap_job_invocation()
+    from mvf import contracts
+    contracts.install()
 
 
 def _wrap_job_invocation():
@@ -328,8 +330,8 @@ class World(object):
         self.cmd_results.append(holder)
         return holder
 
-    def start(self, wf_name, wf_input=None, **params):
-        h = self.command('start_workflow', wf_name, '', None,
+    def start(self, wf_name, wf_input=None, wf_ex_id=None, **params):
+        h = self.command('start_workflow', wf_name, '', wf_ex_id,
                          wf_input or {}, '', **params)
         return h
 
@@ -442,10 +444,10 @@ class World(object):
                           task_ex_id=task_ex_id, wf_ex_id=wf_ex_id, wf=wf,
                           t=t, i=idx, x=action.x, p=action.p, occ=occ,
                           attempt=attempt, outcome=list(outcome),
-                          sync=action.SYNC)
+                          sync=action._SYNC)
         if outcome[0] == 'raise':
             raise Exception(outcome[1])
-        if action.SYNC:
+        if action._SYNC:
             return vactions.make_result(outcome)
         with self.lock:
             if outcome[0] == 'never':
